@@ -115,7 +115,8 @@ def scanCfgOfJson (j : Json) : Except String ScanCfg := do
         axes := ← asList axisSpecOfJson (← fld j "axes"), splitRngs := ← splitOfJson (← fld j "split"),
         inAxes := ← axesTreeOfJson (← fld j "in_axes"), outAxes := ← axesTreeOfJson (← fld j "out_axes"),
         length := ← optNat (← fld j "length"), reverse := ← asBool (← fld j "reverse"),
-        unroll := ← asNat (← fld j "unroll") }
+        unroll := ← asNat (← fld j "unroll"),
+        checkConst := ← (match j.getObjVal? "check_const" with | .ok b => asBool b | .error _ => .ok true) }
 
 def vmapCfgOfJson (j : Json) : Except String VmapCfg := do
   .ok { axes := ← asList vaxisSpecOfJson (← fld j "axes"), splitRngs := ← splitOfJson (← fld j "split"),
@@ -265,6 +266,7 @@ def role (fs : List LFilter) (c : String) : Option Nat := firstIdx fs c
 /-- known (= not data-dependent on carry / scanned inputs) unless the tainted run shows otherwise -/
 def scanVerdict (cfg : ScanCfg) (p : Prog) (scopeMut : LFilter) (outer : Vars DVal) (rngs : Rngs)
     (init args : List A) : Bool :=
+  if !cfg.checkConst then true else
   let tOuter := taintVars (fun c => match role cfg.inFs c with | some 0 => false | some _ => true | none => false) outer
   let tInit := init.map taintArr
   let inAxes := (cfg.inAxes.expand args.length).toOption.getD []
